@@ -1,6 +1,6 @@
 (* C07 — the sender transmits exactly the source file. Pinned statements only. *)
 From CFDP Require Import Base.Prelude Model.Timer Model.TxTypes Model.Recv Model.Send Model.TxInst
-  Proofs.SendP Proofs.FirstPassP.
+  Proofs.SendP Proofs.FirstPassP Proofs.HeaderP.
 
 (* The invariant S7 (metadata size = file length; cursor inside the file; every queued NAK
    request is the 0-0 marker or a non-empty range inside the file no longer than a segment;
@@ -69,6 +69,23 @@ Example C07_first_pass_nonvacuous :
                               | _ => false end) (s_out s ++ h) = true.
 Proof. vm_compute. reflexivity. Qed.
 
+(* Headers: every PDU a send transaction ever emits is directed towards the file receiver, is
+   handed to the transport of the configured destination entity, and announces as its data field
+   length the length of its own payload; the configuration (ids, mode, CRC and size flags) is the
+   one the transaction was created with. [HD cfg s] = "s_cfg s = cfg and every PDU in s_out s has
+   such a header". *)
+Theorem C07_headers_initial : forall resp_len req_len now cfg m file,
+  HD resp_len req_len cfg (s_new now cfg m file).
+Proof. exact HD_init. Qed.
+Theorem C07_headers_every_step : forall cksum resp_len req_len cfg now o s,
+  HD resp_len req_len cfg s -> HD resp_len req_len cfg (fst (sstep cksum resp_len req_len now o s)).
+Proof. exact HD_sstep. Qed.
+Check (fun resp_len req_len cfg s (H : HD resp_len req_len cfg s) => H :
+  s_cfg s = cfg /\ Forall (fun o => match o with
+                                    | OPdu p => o_to_receiver p = true /\ o_dest p = cfg_dst cfg /\
+                                                o_len p = payload_len cfg resp_len req_len (o_payload p)
+                                    | OInd _ => True end) (s_out s)).
+
 Example C07_nonvacuous :
   let cfg := mkConfig Acked false false 4 3 10000 3000 4000 [] 1 2 7 1 1 in
   let md := mkMeta [115] [100] 6 CkModular false [] [] in
@@ -85,3 +102,5 @@ Print Assumptions C07_nak_split_wellformed.
 Print Assumptions C07_file_data_correct.
 Print Assumptions C07_eof_truthful.
 Print Assumptions C07_first_pass_covers.
+Print Assumptions C07_headers_initial.
+Print Assumptions C07_headers_every_step.
